@@ -744,7 +744,7 @@ func runC13(rc *runCtx) *RunResult {
 					// ground truth for the one-sided check below: is the cell's centre inside?
 					cq := q
 					cq.Kind = QContainsPoint
-					cq.P = q.Cell.Center()
+					cq.P = q.Cell.Cell().Center()
 					if ca := execQuery(rw, &cq, nil); len(ca) == 1 {
 						centreKnown, centreIn = true, ca[0] == 1
 					}
